@@ -510,7 +510,9 @@ def case_corr(mon, xs, ys, al, be, ga, de):
     except Exception as ex:
         mon.dev("corr.sign-flip", dict(case, raised=repr(ex)))
         return
-    mon.check("corr.sign-flip", abs(r3 + r) <= 1e-9 and abs(r4 + r) <= 1e-9,
+    # (negating a variable is exact in floating point, and so are the sums
+    # of the negated data: the unchanged tree changes the sign bit for bit)
+    mon.check("corr.sign-flip", abs(r3 + r) <= 1e-12 and abs(r4 + r) <= 1e-12,
               dict(case, r=r, x_negated=r3, y_negated=r4))
     # rescaling by powers of two is exact in floating point: r must not move
     # even when the sums of squares approach the ends of the double range
@@ -610,6 +612,15 @@ def run(mon, spec):
             xs_i = [float(rng.randrange(-50, 51)) for _ in xs]
             if len(set(xs_i)) > 1:
                 xs, ys2 = xs_i, [a * x + b for x in xs_i]  # exactly collinear
+        elif r < 0.4 and len(xs) >= 3:
+            # nearly, not exactly, collinear: 1 - |r| between 1e-15 and 1e-8
+            a = rng.choice((2.5, -0.5, 3.0, 1.0, -7.0))
+            b = rng.choice((0.0, 3.0, -4.0))
+            k = 10.0 ** rng.uniform(-7.5, -4)
+            sp_ = (max(xs) - min(xs)) or 1.0
+            ys2 = [a * x + b + abs(a) * sp_ * k * rng.gauss(0.0, 1.0)
+                   for x in xs]
+            mon.cls("nearly-collinear-data", ("ncol", pseed))
         al = rng.choice((1.0, 2.0, 0.5, 10.0 ** rng.uniform(-2, 2)))
         be = rng.choice((0.0, 1.0, -7.5, rng.uniform(-100, 100)))
         ga = rng.choice((1.0, 3.0, 0.25, 10.0 ** rng.uniform(-2, 2)))
